@@ -20,7 +20,7 @@ MANIFEST = {
     "text": "Every file-system call of every write session of a history is a crash point that is actually exercised on the real "
             "writer; after each crash the real reader, query engine and listing are compared by TLC with the model's committed "
             "blocks, then further write-outs are run and compared again. TLC also explores all crash points of the model exhaustively.",
-    "note": "Crash = SIGKILL between system calls (no torn single write in the quick tier); page cache assumed durable (process crash, "
+    "note": "Crash = SIGKILL between system calls; the thorough tier adds torn column writes (prefix of one write() reaches the file); page cache assumed durable (process crash, "
             "not power loss); one interface, one day; strace/ptrace required.",
     "ref": "6.1 C04",
 }
@@ -46,7 +46,7 @@ def main():
     else:
         configs = [([[1], [2, 3], [4]], "lz4", "m", s, None)]
         lim = None
-    n = sf.run_enumeration(run, "kill", configs, per_session_limit=lim)
+    n = sf.run_enumeration(run, "kill", configs, per_session_limit=lim, torn=thorough)
     run.cov["rule"] = ("one experiment per (history, session, file-system call): SIGKILL on entry of that call; distinct = distinct "
                        "(config, session, syscall name, ordinal); each experiment also runs the remaining write-outs")
     run.cov["exhaustive"] = True
